@@ -700,4 +700,77 @@ theorem applied_prefix {st : State Node Id Conn S Cmd Reply} (r : ReachF step s0
   refine ⟨h1, ?_⟩
   rw [← h1]; exact (reach_inv step s0 (g.nodeR i)).sm_log
 
+
+/-! ## non-vacuity: a two-node run with two clients that satisfies `RaftFacts` at every event
+
+    Nodes `false`, `true` (one connection each, `false`), state machine `exStep` (an accumulator; the reply is the new total).
+    Client A at node `false` submits `5` (id 1) · client B at node `true` submits `7` (id 2) · raft orders id 2 first: node `false`
+    applies `{2,7}` (a foreign entry there), node `true` applies `{2,7}` and B receives `7` · node `false` applies `{1,5}` and A
+    receives `12` · AFTER that B submits `1` (id 3) · node `true` catches up with `{1,5}` (foreign there), applies `{3,1}`, B receives
+    `13`.  Node `false` has applied two entries, node `true` three. -/
+
+deriving instance DecidableEq for Rendezvous.Entry
+
+abbrev ExSt := State Bool Nat Bool Nat Nat Nat
+def x1 : ExSt := next exStep (init 0) (.submit false false 5 1)
+def x2 : ExSt := next exStep x1 (.submit true false 7 2)
+def x3 : ExSt := next exStep x2 (.apply false ⟨2, 7⟩)
+def x4 : ExSt := next exStep x3 (.apply true ⟨2, 7⟩)
+def x5 : ExSt := next exStep x4 (.receive true false)
+def x6 : ExSt := next exStep x5 (.apply false ⟨1, 5⟩)
+def x7 : ExSt := next exStep x6 (.receive false false)
+def x8 : ExSt := next exStep x7 (.submit true false 1 3)
+def x9 : ExSt := next exStep x8 (.apply true ⟨1, 5⟩)
+def x10 : ExSt := next exStep x9 (.apply true ⟨3, 1⟩)
+def x11 : ExSt := next exStep x10 (.receive true false)
+
+local macro "rf" : tactic => `(tactic| (simp only [RaftFacts]; decide))
+
+theorem x11_reach : ReachF exStep 0 x11 :=
+  .step (.step (.step (.step (.step (.step (.step (.step (.step (.step (.step .init
+    rfl (by rf)) rfl (by rf)) rfl (by rf)) rfl (by rf)) rfl trivial) rfl (by rf)) rfl trivial) rfl (by rf)) rfl (by rf)) rfl (by rf)) rfl trivial
+
+/-- the one log of the example: what node `true` has applied -/
+def xL : List (Entry Nat Nat) := [⟨2, 7⟩, ⟨1, 5⟩, ⟨3, 1⟩]
+
+theorem x11_shared : Shared x11 xL := by
+  refine ⟨?_, Or.inr ⟨true, rfl⟩⟩
+  intro i; cases i
+  · exact ⟨[⟨3, 1⟩], rfl⟩
+  · exact ⟨[], rfl⟩
+
+/-- both clients received the replies of their own commands at their own positions of the one log: A `12` (= 7 + 5, position 1),
+    B `7` (position 0) and `13` (position 2) -/
+example : ReachF exStep 0 x11 ∧ (x11.node false).delivered false = [12] ∧ (x11.node true).delivered false = [7, 13] ∧
+    (x11.node false).log.map (·.id) = [2, 1] ∧ (x11.node true).log.map (·.id) = [2, 1, 3] ∧
+    OwnReplyAt exStep 0 x11 xL false false ∧ OwnReplyAt exStep 0 x11 xL true false :=
+  ⟨x11_reach, rfl, rfl, rfl, rfl, own_reply_shared exStep 0 x11_reach x11_shared false false,
+    own_reply_shared exStep 0 x11_reach x11_shared true false⟩
+
+/-- `real_time_shared` on the example: A's reply was received at cluster time 6 (node `false`), B's second command was submitted at
+    time 7 (node `true`); their entries are at positions 1 and 2 -/
+example : (1 : Nat) < 2 :=
+  real_time_shared exStep 0 x11_reach x11_shared (i := false) (i' := true) (c := false) (c' := false) (k := 0) (k' := 1) (tr := 6) (ti := 7)
+    (id := 1) (id' := 3) (cmd := 5) (cmd' := 1) rfl rfl (by decide) rfl rfl rfl rfl
+
+/-- `linearizable_shared` on the example, whose history has three completed operations at two nodes -/
+example : Linearizable exStep 0 (history x11) ∧ (history x11 (false, false) 0).map (·.res) = some (some (6, 12)) ∧
+    (history x11 (true, false) 1).map (·.res) = some (some (10, 13)) :=
+  ⟨linearizable_shared exStep 0 x11_reach x11_shared, rfl, rfl⟩
+
+/-- `applied_prefix` on the example: node `false` has applied the first two entries of node `true`'s log -/
+example : (x11.node false).log = (x11.node true).log.take 2 ∧ (x11.node false).sm = 12 ∧ (x11.node true).sm = 13 :=
+  ⟨(applied_prefix exStep 0 x11_reach false true (by decide)).1, rfl, rfl⟩
+
 end Multi
+
+#print axioms Multi.reach_node
+#print axioms Multi.reach_ginv
+#print axioms Multi.reach_ginvT
+#print axioms Multi.shared_exists
+#print axioms Multi.own_reply_shared
+#print axioms Multi.real_time_shared
+#print axioms Multi.linearizable_shared
+#print axioms Multi.applied_agree_len
+#print axioms Multi.applied_prefix
+#print axioms Multi.x11_reach
